@@ -6,12 +6,16 @@ of one closure passed to `updateInFlight`, and association-list maps.  Core Lean
 -/
 namespace GopModel.InFlight
 
-/-- Canonical text of a `jsonrpc2.ID`: `"-"` invalid (no ID), `"i<decimal>"`, `"s<hex>"`. -/
-abbrev ID := String
+/-- A `jsonrpc2.ID`: invalid (no ID), an int64, or a string. -/
+inductive ID where
+  | none
+  | int (n : Int)
+  | str (s : String)
+  deriving DecidableEq, Repr
 /-- Identity of a heap object (`*AsyncCall`, `*incomingRequest`). -/
 abbrev Ref := Nat
 
-def noID : ID := "-"
+def noID : ID := ID.none
 
 /-- An `*AsyncCall`: its identity and its immutable `id` field. -/
 structure Call where
@@ -86,7 +90,16 @@ structure Out where
   closedCloser : Bool := false          -- `s.closer.Close()` was called
   closedDone : Bool := false            -- `close(c.done)` was executed
   onDone : Bool := false                -- `c.onDone()` (if configured)
-  panic : Option String := none         -- a `panic(…)` statement was reached
+  panic : Bool := false                 -- a `panic(…)` statement was reached (the closure stops there)
+  deriving DecidableEq, Repr
+
+/-- Captured inputs of a closure (each closure uses only the components it mentions):
+`call` = the `ac` of `Call`, `req` = the `req` of `acceptRequest`/`processResult`,
+`id` = the `id` of `Respond`/`Cancel` or the `msg.ID` of a received response. -/
+structure Args where
+  call : Call
+  req : Req
+  id : ID
   deriving DecidableEq, Repr
 
 end GopModel.InFlight
